@@ -422,10 +422,11 @@ def r12_a_relayout_cannot_crash_the_renderer(ctx):
     line, another neighbour on the line.  `Behave identically` then needs the renderer to locate and copy *any* line of any
     layout - the last line's end is the end of the text (no final line break required), and a character of any width can be
     copied into the output.  Shared with C07-R5 / C07-R5b (renderer positions) and C13-R6 (encode buffers hold 4 bytes)."""
-    from .c07 import r5_renderer_boundaries, r5b_renderer_indexes_stay_inside, r10_front_end_memory_is_linear
+    from .c07 import r5_renderer_boundaries, r5b_renderer_indexes_stay_inside, r5c_renderer_slices_run_forward, r10_front_end_memory_is_linear
     from .c13 import encode_buffers
     r5_renderer_boundaries(ctx)
     r5b_renderer_indexes_stay_inside(ctx)
+    r5c_renderer_slices_run_forward(ctx)
     encode_buffers(ctx)
     # ... and what the front end allocates per token does not depend on where the line breaks are (C07-R10): a reservation
     # sized by the rest of the line makes a one-line layout of a program quadratic in memory while the same tokens, one
